@@ -20,6 +20,7 @@ func (c *Ctx) chainIs(rule, key string, pos token.Pos, v ssa.Value, want []strin
 }
 
 func propC17(c *Ctx) propInfo {
+	c.statelessCodecs("E17.stateless", excStateless, "ton", "utils")
 	c.errflow(excC17E2, "ton")
 	c.radixDiscipline("E11.radix", "ton", "liteclient", "utils")
 	c.addressBufferSizes()
